@@ -54,6 +54,14 @@ CHECKS = {
    technique='deterministic simulation of byte streams over a fault-injecting transport (planned recv chunking, trickle, timeout, reset, EOF inside a frame) against the real session loop; grammar-aware corruption of valid requests; enumerated split points',
    text='Streams of valid requests and 25 kinds of grammar-aware corruption (plus raw random frames) ending in a valid request are delivered to a real KmipSession frame by frame or as a whole pipelined connection through the real run(), under two chunk plans each. Checked: exactly one well-formed response per framed request (independent TTLV + envelope check); undecodable frames are answered Invalid Message, never reach the engine (spy) and leave the store unchanged; no exception leaves the message loop; the final valid request is answered as on a clean connection; responses do not depend on chunking (every single split point of a frame is enumerated in a sub-batch); Response Too Large exactly when the encoded size exceeds the requested maximum; after timeout/reset run() returns and nothing is executed more often than complete frames arrived.',
    note='Decodability is classified by a separate call of the real decoder. TLS is below the seam. Max response size 0 is not exercised (the error response itself is larger).'),
+ 'C17': dict(level='fault_enumeration', ref='5/C17',
+   technique='deterministic simulation of the authentication path with an enumerated configuration/fault product (certificate shape x EKU checking x plugin lists incl. 404 / unreachable / bad-JSON faults of a simulated SLUGS service x request) and a spy on the engine entry',
+   text='The complete product of 13 certificate shapes (real DER: absent; 0/1/2 common names x EKU absent/serverAuth/clientAuth/both) x enable_tls_client_auth x 133 plugin configurations (none, and every list of 1-2 blocks over 11 behaviours incl. 404 at users/groups, unreachable at users/groups, non-JSON body, disabled, unsupported name, missing URL) x 3 requests = 10374 cases is executed in every run against a real KmipSession with a real engine. A spy records whether and with which (user, groups) request processing was entered; it must be exactly when the decision model says identity is established, with exactly that identity; otherwise exactly one Authentication Not Successful response and an unchanged store.',
+   note='Exhaustive over the stated finite product (exhaustive: true). A users-endpoint answer of 5xx is executed and recorded but not judged. TLS itself is below the seam (the certificate is handed to the session by the fake connection).'),
+ 'C18': dict(level='exploration', ref='5/C18',
+   technique='deterministic simulation of the policy directory monitor: real files with simulated mtimes, step-wise scans and the real run() loop under the scheduler with a simulated clock; file-system faults (torn write, vanish race, mtime tie, clock jump back, monitor restart); latest-good-load-wins reference model',
+   text='All event sequences up to depth 3 (quick) / 4 (thorough) over a 9-letter alphabet, plus random sequences up to 30 events over 3 files x 3 policy names (+ reserved names) with unique definitions in every documented shape and 9 kinds of invalid document at any position, with torn writes, a file vanishing between listdir and getmtime, edits that do not advance the mtime, clock jumps backwards and monitor restarts; plus a live sub-batch running the real run() loop with bounded-liveness check (store == model within 2 simulated seconds after the last event). After every scan the store must equal built-ins + latest good load per name; built-ins never change; invalid files only raise ValueError and change nothing; scan_policies never raises (except the injected vanish race, after which the next scan must converge).',
+   note='Manager().dict() is replaced by a plain dict with list-returning keys()/items(). For a name two files (re)load in the same scan either winner is accepted. Edits invisible through the mtime may be missed until the mtime advances.'),
 }
 ALL = ['C%02d' % i for i in range(1, 21)]
 
